@@ -56,9 +56,9 @@ Is(name) == l <= N /\ Ev[l].ev = name /\ l' = l + 1
 Silent == l' = l /\ UNCHANGED aux
 E == Ev[l]
 
-TInit == Init /\ l = 1 /\ aux = [created |-> {}, keeps |-> <<>>, prev |-> "", renamed |-> {}, coin |-> "bitcoin", ino |-> 0]
+TInit == Init /\ l = 1 /\ aux = [created |-> {}, keeps |-> <<>>, prev |-> "", renamed |-> {}, coin |-> "bitcoin", ino |-> 0, other |-> -1]
 
-AuxInit == [created |-> {}, keeps |-> <<>>, prev |-> "", renamed |-> {}, coin |-> "bitcoin", ino |-> 0]
+AuxInit == [created |-> {}, keeps |-> <<>>, prev |-> "", renamed |-> {}, coin |-> "bitcoin", ino |-> 0, other |-> -1]
 TBegin == Is("cmd") /\ BeginFresh(TraceScenario(l)) /\ aux' = [AuxInit EXCEPT !.coin = IF Has(E, "coin") THEN E.coin ELSE "bitcoin"]
 
 \* ---- construction of the callback ------------------------------------------------------------
@@ -94,7 +94,10 @@ TFetched == /\ Is("fetched") /\ pc = "open" /\ E.h = cur
             /\ ToSet(E.open) = open'                                      \* C17: logged open set
             /\ blk' = E.hash
             /\ pc' = IF sc.verify THEN "verify" ELSE "deliver"
-            /\ aux' = [aux EXCEPT !.prev = IF Has(E, "prev") THEN E.prev ELSE ""]
+            \* C17: the real descriptor count of the process moves with the open set (the other descriptors are a constant)
+            /\ (Has(E, "fds") /\ aux.other >= 0) => E.fds - Len(E.open) = aux.other
+            /\ aux' = [aux EXCEPT !.prev = IF Has(E, "prev") THEN E.prev ELSE "",
+                                  !.other = IF Has(E, "fds") THEN E.fds - Len(E.open) ELSE @]
             /\ UNCHANGED <<sc, scan, seen, lastAt, idx, fileMaxH, maxH, cur, delivered, tmp, fin, rows, exit, errH>>
 \* Open or SeekRead failing: reported with the height
 TReadErr == /\ (Is("read_err") \/ Is("nofile")) /\ pc = "open" /\ E.h = cur /\ Fail(cur) /\ UNCHANGED aux
